@@ -104,6 +104,30 @@ def gen_case(rng, name, mmax=5, nmax=6, cat=None, boundary=True):
     raise RuntimeError("could not generate a case for " + name)
 
 
+def sibling(c):
+    """a case with the same aggregator, parameters, shape, scale and singular values but different
+    content (rows and columns reversed), to be evaluated RIGHT AFTER c on the same reused instance
+    and the same reused buffer: anything remembered from the previous call (keyed on shape, tensor
+    identity, closeness of tiny Gramians, ...) shows up as a wrong answer here.  Row-indexed parameters
+    are reversed alongside, so that the sibling is the same problem up to relabelling."""
+    J2 = [list(reversed(r)) for r in reversed(c["J"])]
+    if J2 == c["J"]:
+        return None
+    p2 = dict(c["params"])
+    for k in ("pref", "weights", "leak"):
+        if p2.get(k) is not None:
+            p2[k] = list(p2[k])            # same values, NOT reversed: same instance key
+    return {"name": c["name"], "params": p2, "J": J2, "cat": c["cat"] + "+sibling"}
+
+
+def presibling(c):
+    """for a replay: the case that was evaluated right before a '+sibling' case (None otherwise)"""
+    if not c.get("cat", "").endswith("+sibling"):
+        return None
+    return {"name": c["name"], "params": dict(c["params"]),
+            "J": [list(reversed(r)) for r in reversed(c["J"])], "cat": c["cat"][: -len("+sibling")]}
+
+
 def dtypes_for(c):
     """float32 is used only where reg_eps dominates the float32 rounding error of the normalised
     Gramian (reg_eps's documented purpose is to keep the QP matrix positive definite in spite of
